@@ -545,15 +545,23 @@ class Exec:
             if isinstance(v, ArrayVal) and not self.spec_mode:
                 v = lib._new_buffer(st, v, target.id)      # numpy results are fresh mutable arrays
             hints = self.contract.ghosts.get('seqvars', {})
-            if isinstance(v, list) and not v and target.id in hints:
+            if isinstance(v, list) and target.id in hints and not self.spec_mode:
                 cod = hints[target.id]
-                v = SeqVal(z3.Empty(z3.SeqSort(cod.sort)), cod)
+                if not v:
+                    v = SeqVal(z3.Empty(z3.SeqSort(cod.sort)), cod)
+                else:
+                    parts = [z3.Unit(cod.pack(x)) for x in v]
+                    v = SeqVal(parts[0] if len(parts) == 1 else z3.Concat(*parts), cod)
             lhints = self.contract.ghosts.get('listvars', {})
-            if isinstance(v, list) and not v and target.id in lhints:
+            if isinstance(v, list) and target.id in lhints and not self.spec_mode:
                 # growable python list modelled as (length, index -> element) in the store
                 cod = lhints[target.id]
                 buf = fresh_name('list_' + target.id)
-                arr = ArrayVal((0,), lambda i: cod.unpack(z3.Const(fresh_name('nil'), cod.sort)), 'obj')
+                items = list(v)
+                if items:
+                    arr = ArrayVal((len(items),), lambda i, items=items: select_concrete(items, i, None), dtype_of_value(items[0]))
+                else:
+                    arr = ArrayVal((0,), lambda i: cod.unpack(z3.Const(fresh_name('nil'), cod.sort)), 'obj')
                 arr.elem = cod
                 st.store[buf] = arr
                 v = PyList(buf)
